@@ -1,7 +1,7 @@
 """C27: ModuleManager.sort_modules (E2 pysx).
 The function's AST is read from /repo at run time and executed by the merged
 symbolic interpreter with the dependency map as N*(N+1) Boolean solver variables
-(N known modules + one unknown name) and `ignores()` arbitrary.  One query per
+(N known modules + two unknown names) and `ignores()` arbitrary.  One query per
 obligation decides it for ALL dependency maps over N modules."""
 import itertools
 import time
@@ -13,11 +13,12 @@ from vlib.pysx.core import Exec, SDict, SSet, SSeq, Choice, alts_of, PyUnsupport
 from vlib.fsym.terms import AND, OR, NOT
 
 PROP = "C27"
+UNKS = ["unk", "unk2"]     # names that are not keys of the map (modules outside the given set)
 
 
 def encode(N, fn):
     keys = [f"k{i}" for i in range(N)]
-    uni = keys + ["unk"]
+    uni = keys + UNKS
     bits = {(i, u): z3.Bool(f"dep_{i}_{u}") for i in range(N) for u in uni}
     deps = SDict(keys, {k: z3.BoolVal(True) for k in keys},
                  {k: SSet(uni, {u: bits[(i, u)] for u in uni}) for i, k in enumerate(keys)})
@@ -94,7 +95,7 @@ def replay(model, N, bits, keys):
     from psyclone.parse import ModuleManager
     deps = {}
     for i, k in enumerate(keys):
-        deps[k] = {u for u in keys + ["unk"] if z3.is_true(model.eval(bits[(i, u)], model_completion=True))}
+        deps[k] = {u for u in keys + UNKS if z3.is_true(model.eval(bits[(i, u)], model_completion=True))}
     mm = ModuleManager.get()
     import io
     import contextlib
@@ -168,7 +169,7 @@ def main():
     chk.cov["transitions"] = chk.cov["queries"]
     chk.cov["traces_validated_against_impl"] = self_test(chk)
     chk.cov["exhaustive"] = True
-    chk.cov["bounds"] = {"N": Ns, "unknown_names": 1, "while_unwind": "N (unwinding obligation discharged)"}
+    chk.cov["bounds"] = {"N": Ns, "unknown_names": len(UNKS), "while_unwind": "N (unwinding obligation discharged)"}
     chk.cov["functions_encoded"] = core.src_hash(fn)
     chk.cov["rule"] = "one obligation per (N, kind)"
     chk.assumptions += ["dict iteration = insertion order, key order fixed (all orders covered by relabelling)",
@@ -191,10 +192,10 @@ def self_test(chk):
     for _ in range(25):
         N = rnd.randint(1, 4)
         ex, res, keys, bits = encode(N, fn)
-        deps = {k: {u for u in keys + ["unk"] if rnd.random() < 0.3} for k in keys}
+        deps = {k: {u for u in keys + UNKS if rnd.random() < 0.3} for k in keys}
         s = z3.Solver()
         for i, k in enumerate(keys):
-            for u in keys + ["unk"]:
+            for u in keys + UNKS:
                 s.add(bits[(i, u)] == (u in deps[k]))
         assert str(s.check()) == "sat"
         m = s.model()
